@@ -167,7 +167,7 @@ pub fn mdump(c: &MCtx) -> Res {
 pub struct Model<'a> {
     pub case: &'a Case,
     pub reg: MReg,
-    pub desc: BTreeMap<(DKind, String), usize>,
+    pub desc: std::cell::RefCell<BTreeMap<(DKind, String), usize>>,
     pub slots: Vec<MCtx>,
     pub shared: Vec<Prog>,
     pub log: Vec<Ev>,
@@ -200,7 +200,7 @@ pub fn run_model(case: &Case, calc: &mut dyn Calc) -> ModelOut {
     let mut m = Model {
         case,
         reg: MReg::builtin(),
-        desc: BTreeMap::new(),
+        desc: std::cell::RefCell::new(BTreeMap::new()),
         slots: case.slots.iter().map(mctx_of).collect(),
         shared: case.shared.clone(),
         desc_depth: std::cell::Cell::new(0),
@@ -403,7 +403,7 @@ impl<'a> Model<'a> {
             }
             Op::SetDesc { kind, name, id } => {
                 let key = if kind.named() { name.clone() } else { String::new() };
-                self.desc.insert((*kind, key), *id);
+                self.desc.borrow_mut().insert((*kind, key), *id);
                 Res::Unit
             }
             Op::Describe { prog } => {
@@ -414,9 +414,19 @@ impl<'a> Model<'a> {
                 // a registration is in effect when its set_* call returns, whatever handle it went through
                 for (kind, name, id) in regs {
                     let key = if kind.named() { name.clone() } else { String::new() };
-                    self.desc.insert((*kind, key), *id);
+                    self.desc.borrow_mut().insert((*kind, key), *id);
                 }
                 let rs: Vec<Res> = then.iter().map(|o| self.guarded(o)).collect();
+                Res::Many(rs)
+            }
+            Op::OnThreadExit { ops, .. } => {
+                // a thread that is ending is a thread like any other: the operations, twice, in order
+                let saved = self.cur_task;
+                self.cur_task = self.next_task;
+                self.next_task += 1;
+                let mut rs: Vec<Res> = ops.iter().map(|o| self.guarded(o)).collect();
+                rs.extend(ops.iter().map(|o| self.guarded(o)).collect::<Vec<_>>());
+                self.cur_task = saved;
                 Res::Many(rs)
             }
             Op::OnThread { ops } => {
@@ -586,7 +596,7 @@ impl<'a> Model<'a> {
     }
 
     fn d(&self, kind: DKind, name: &str) -> Option<usize> {
-        self.desc.get(&(kind, if kind.named() { name.to_string() } else { String::new() })).copied()
+        self.desc.borrow().get(&(kind, if kind.named() { name.to_string() } else { String::new() })).copied()
     }
 
     /// what a marker descriptor renders: `<id|parts>`; a re-entrant one (id >= REENTRANT_DESC)
@@ -601,6 +611,10 @@ impl<'a> Model<'a> {
             self.desc_depth.set(1);
             let inner = self.describe(&crate::case::self_desc_program());
             self.desc_depth.set(0);
+            format!("<{}|{}|{}>", id, parts, inner)
+        } else if id >= crate::case::REG_DESC {
+            self.desc.borrow_mut().insert((DKind::Reference, "inner_r".to_string()), crate::case::REG_INNER_ID);
+            let inner = self.describe(&rf("inner_r"));
             format!("<{}|{}|{}>", id, parts, inner)
         } else if id >= crate::case::REENTRANT_DESC {
             let inner = self.describe(&rf("inner_q"));
